@@ -298,7 +298,7 @@ def c07(tier):
                     # behind exactly that history (7 calls: set, set, lose, begin, op, failing op, abort)
                     two],
                    [dict(base, level=6, features="FFaultsDirect", maxlost=3), dict(base, level=5), two,
-                    dict(shared, level=8),
+                    dict(shared, level=10),
                     dict(base, level=5, vals="VQuick", features="FFaultsDirect")],
                    modes=("faults",), ntr=(150, 2000),
                    sim=dict(base, features="FFaultsNoop", maxlost=3, maxlive=4, emit="EmitC07"),
